@@ -407,7 +407,11 @@ def run_daemon(desc):
             t0 = time.monotonic()
             next_ka = t0 + H / 3
             ended = None
+            stall = 0.0  # the longest pause of THIS loop: a machine which starves the observer starves the daemon too
+            last_turn = t0
             while time.monotonic() - t0 < 2.5 * H:
+                stall = max(stall, time.monotonic() - last_turn)
+                last_turn = time.monotonic()
                 if time.monotonic() >= next_ka:
                     peer.send(4)
                     next_ka += H / 3
@@ -422,7 +426,10 @@ def run_daemon(desc):
                     break
             gaps = [b - a for a, b in zip(rx_times, rx_times[1:])] + [time.monotonic() - rx_times[-1]]
             wit.update(ended=ended, max_gap=round(max(gaps), 2), keepalives_received=len(rx_times) - 1)
-            if ended:
+            wit['observer_longest_pause'] = round(stall, 2)
+            if stall > 1.0:
+                daemon.skipped(res, f'the observing loop itself paused for {stall:.1f} s: real-time verdicts are not taken on such a run')
+            elif ended:
                 res.violation(f'C12/daemon:closed-despite-traffic:{ended[0]}', f'H={H}: the peer sent a KEEPALIVE every {H / 3:.1f} s and the session ended ({ended[:3]}) after {ended[3]:.1f} s', wit, 'daemon:chatty')
             elif max(gaps) >= H:
                 res.violation('C12/daemon:silent-for-a-hold-time', f'H={H}: the daemon sent nothing for {max(gaps):.1f} s while the peer was reading (it promises a KEEPALIVE every H/3)', wit, 'daemon:chatty')
